@@ -24,3 +24,67 @@ package scramblesuit
 //@   ensures [C18:undecodable_ticket_file_never_blocks_startup] err != nil ==> READERR(payload(err)) && !NOTEXIST(payload(err))
 //@   ensures (err == nil) == (s != nil)
 //@   ensures [C18:absent_ticket_file_is_fine] !fexists(JOIN(stateDir, "scramblesuit_tickets.json")) ==> err == nil
+
+// ---- client connection set-up (C10 deadline discipline, C15 ticket handling) ----
+// Assumed contracts (bodies not under contract yet): only frames and the facts callers need.
+//@ func (*ssTicketStore).serialize(s) (err)
+//@   serves C15
+//@   nobody iterates a map of tickets into JSON; only the frame is stated
+//@   requires s != nil
+//@   modifies file(s.filePath), fexists(s.filePath), crashed
+
+//@ func (*ssConn).initCrypto(conn, seed) (err)
+//@   serves C15
+//@   nobody HKDF expansion into two AES-CTR/HMAC states; only the frame is stated
+//@   requires conn != nil
+//@   modifies conn.txCrypto, conn.rxCrypto
+//@   ensures err == nil ==> conn.txCrypto != nil && conn.rxCrypto != nil && fresh(conn.txCrypto) && fresh(conn.rxCrypto) && conn.txCrypto.mac != nil
+
+//@ func newTicketClientHandshake(mac, ticket) (hs)
+//@   serves C15
+//@   nobody
+//@   ensures hs != nil && fresh(hs)
+//@ func (*ssTicketClientHandshake).generateHandshake(hs) (blob, err)
+//@   serves C15
+//@   nobody
+//@   modifies hs.*
+//@   ensures err == nil ==> blob != nil && fresh(blob)
+//@ func (*ssDHClientHandshake).generateHandshake(hs) (blob, err)
+//@   serves C15
+//@   nobody
+//@   requires dhHsInv(hs)
+//@   modifies hs.mac.*, hs.epochHour
+//@   ensures dhHsInv(hs) && (err == nil ==> blob != nil && fresh(blob))
+
+//@ func newDHClientHandshake(kB, sessionKey) (hs)
+//@   serves C15 C10
+//@   requires kB != nil
+//@   ensures hs != nil && fresh(hs) && dhHsInv(hs) && hs.keypair == sessionKey && hs.serverPublicKey == nil && fresh(hs.mac)
+
+// Tickets are single use: the ticket is removed from the store BEFORE the store is checkpointed, so a
+// used ticket never survives on disk.
+//@ func (*ssTicketStore).getTicket(s, addr) (t, err)
+//@   serves C15 C10
+//@   requires s != nil && s.store != nil && addr != nil
+//@   modifies s.store.*, file(s.filePath), fexists(s.filePath), crashed, now
+//@   opt ignore.safe.overflow issuedAt + lifetime wraps silently for absurd values read from disk (the ticket then counts as expired)
+//@   assert_at ssTicketStore).serialize#1 [C15:used_ticket_removed_before_checkpoint] !maphas(s.store, aStr)
+//@   ensures [C15:ticket_is_single_use] t != nil ==> !maphas(s.store, ADDRSTR(addr))
+
+// The client handshake itself never touches the deadline: the caller arms it before and disarms it after.
+//@ func (*ssConn).clientHandshake(conn, kB, sessionKey) (err)
+//@   serves C15 C10
+//@   requires conn != nil && conn.Conn != nil && whole(conn) && conn.ticketStore != nil && conn.ticketStore.store != nil && conn.receiveBuffer != nil && whole(conn.receiveBuffer) && kB != nil && privOK(sessionKey)
+//@   requires !typeis(conn.Conn, "*scramblesuit.ssConn")
+//@   modifies conn.txCrypto, conn.rxCrypto, conn.receiveBuffer.*, conn.Conn.wr, conn.Conn.nwrites, conn.Conn.rd, conn.Conn.nreads, blocked, now, conn.ticketStore.store.*, file(conn.ticketStore.filePath), fexists(conn.ticketStore.filePath), crashed
+//@   loop 1 invariant dhHsInv(hs) && privOK(hs.keypair) && hs != nil && fresh(hs) && fresh(hs.mac)
+//@   loop 1 invariant [C10:handshake_rx_bound] len(conn.receiveBuffer.content) <= 1547
+//@   ensures [C10:deadline_owned_by_the_caller] conn.Conn.deadline == old(conn.Conn.deadline) && conn.Conn.rdeadline == old(conn.Conn.rdeadline)
+//@   ensures [C10:handshake_rx_bound] len(conn.receiveBuffer.content) <= 3079
+
+//@ func newScrambleSuitClientConn(conn, tStore, ca) (c, err)
+//@   serves C15 C10
+//@   requires conn != nil && tStore != nil && tStore.store != nil && ca != nil && ca.kB != nil && privOK(ca.sessionKey) && !typeis(conn, "*scramblesuit.ssConn")
+//@   modifies conn.*, blocked, now, tStore.store.*, file(tStore.filePath), fexists(tStore.filePath), crashed, csrand.Reader.*
+//@   ensures (err == nil) == (c != nil)
+//@   ensures [C10:handshake_timeout_disarmed] err == nil ==> conn.deadline == 0 && conn.rdeadline == 0
